@@ -9,12 +9,29 @@
      - those operations denote exactly those bits at any position (C15_*_ops_bits), and the byte
        sink exports them zero-padded to a byte (C15_bytes_carry_the_bits);
      - frame / sample numbers below 2^36 through the parser's own decoder (C15_number_parse).
-   PARTIAL: the composition over frame headers (code fields, CRC-8), frames (padding, CRC-16) and the
-   stream (marker, metadata) is decided per run on the implementation (parse consumes all input,
-   verifies, re-serialises to identical bytes, decodes to the input) and on the parser model by the
-   PARSE and CTOR correspondence streams. *)
+     - FRAMES (C15_frame): for every frame without a precomputed bit stream whose header carries the writer's
+       own block-size / sample-rate codes (header_canon: what FrameHeader::new and the encoder produce), with
+       verified, correctly sized subframes: the parser on the frame's bytes followed by anything returns the
+       identical frame and exactly the remaining bytes (sync, blocking bit, code fields, UTF-8-like number,
+       CRC-8, every subframe at its channel's width, return to byte granularity, CRC-16);
+     - STREAMS (C15_stream): for every stream with a canonical STREAMINFO (what the parser accepts: the
+       documented ranges, or the unset placeholders), any list of further metadata blocks (tag 1..126, below
+       2^24 bytes) and canonical frames: parse_stream (stream_bytes s) = Some s - all input is consumed and the
+       identical component tree is returned, which therefore re-serialises to exactly the same bytes;
+     - EMITTED STREAMS (C15_encoded_stream): for every estimator, MD5 function, configuration (max parameter <= 14),
+       rate <= 96000, 1..8 channels, width 8/12/16/20/24, block size 1..32767 and whole number of samples, the
+       stream the encoder model returns is such a stream (its frames are canonical, its frame-size bounds fit
+       24 bits - by C09's size theorem - or are the unset placeholders when there is no frame), so parsing its
+       bytes returns the encoder's own tree; with C01_stream_end_to_end / C01_frame_lossless that tree decodes to
+       the input samples.
+   MODELLED, NOT PROVED: that parser.rs is the parser model and bitrepr.rs the writer model - decided on every run
+   by the PARSE and CTOR correspondence streams (implementation parser vs parser model on emitted streams of
+   every code class and their mutants; parse consumes all input, verifies, re-serialises to identical bytes,
+   decodes to the input). *)
 From FV Require Import Model.Base Model.Sink Model.Codes Model.Rice Model.Predict Model.Component Model.Flac Model.Parser Model.Ctor
-  Proofs.OpsLen Proofs.ParserP Proofs.BitRead Proofs.BitWrite Proofs.CtorP Proofs.ParseResidual Proofs.ParseSubframe.
+  Model.Encoder
+  Proofs.OpsLen Proofs.ParserP Proofs.BitRead Proofs.BitWrite Proofs.CtorP Proofs.ParseResidual Proofs.ParseSubframe
+  Proofs.EncodeFrameE2E Proofs.DecodeStream Proofs.ParseFrame Proofs.ParseFrameCtor Proofs.ParseStream Proofs.ParseEncoded.
 Local Open Scope N_scope.
 
 Theorem C15_number_parse : forall v bytes rest c,
@@ -58,3 +75,42 @@ Print Assumptions C15_bytes_carry_the_bits.
 Theorem C15_ideal_bits : forall ops : list op, bstr_bits (ideal_run ops) = ops_bitlist 0 ops.
 Proof. exact ideal_run_bits. Qed.
 Print Assumptions C15_ideal_bits.
+
+(* ---- frames ---- *)
+(* header_canon h bps: h's block-size code is block_size_code (h_block h), 1 <= block <= 65535, its rate code is
+   sample_rate_code of some rate below 2^32, its sample-size tag denotes bps (or is 0), number < 2^36 (< 2^32 for
+   fixed blocking), channel assignment valid.
+   psub_ready block s b: s has block samples of width b, verifies, is typed, quotients are u32. *)
+Theorem C15_frame : forall (f : frame) (bytes rest : list N) (channels bps : N),
+  f_precomputed f = None -> header_canon (f_header f) bps ->
+  chassign_channels (h_ch (f_header f)) = channels -> N.of_nat (length (f_subframes f)) = channels ->
+  bps <= Generated.c_MAX_BITS_PER_SAMPLE ->
+  (forall i s, nth_error (f_subframes f) i = Some s ->
+     psub_ready (h_block (f_header f)) s (bps + bps_offset (h_ch (f_header f)) (N.of_nat i))) ->
+  frame_bytes f = Ok bytes -> Forall (fun x => x < 256) rest ->
+  p_frame channels bps (bytes ++ rest) = Some (f, rest).
+Proof. exact canonical_frame_parses_back. Qed.
+Print Assumptions C15_frame.
+
+(* ---- streams ---- *)
+Theorem C15_stream : forall (s : stream) (bytes : list N),
+  info_canon (s_info s) -> Forall meta_ok (s_meta s) -> si_bps (s_info s) <= Generated.c_MAX_BITS_PER_SAMPLE ->
+  Forall (frame_canon (si_channels (s_info s)) (si_bps (s_info s))) (s_frames s) ->
+  stream_bytes s = Ok bytes -> parse_stream bytes = Some s.
+Proof. exact stream_parses_back. Qed.
+Print Assumptions C15_stream.
+
+(* ---- the streams this library emits ---- *)
+Theorem C15_encoded_stream :
+  forall (ent : N -> N -> N -> N) (qlpc : N -> N -> qparams) (md5 : list N -> list N)
+         cfg rate channels bps bs samples s bytes (total : nat),
+    encode_stream ent qlpc md5 cfg rate channels bps bs samples = Ok s -> stream_bytes s = Ok bytes ->
+    cfg_max_parameter cfg <= 14 -> In bps [8; 12; 16; 20; 24] -> rate <= 96000 -> 1 <= channels <= 8 ->
+    1 <= bs <= Generated.c_MAX_BLOCK_SIZE ->
+    length samples = (total * N.to_nat channels)%nat -> N.of_nat total < 2 ^ 36 ->
+    length (md5 (md5_input bps samples)) = 16%nat -> Forall (fun x => x < 256) (md5 (md5_input bps samples)) ->
+    (forall j b, nth_error (chunks (N.to_nat (bs * channels)) samples) j = Some b ->
+                 block_hyps qlpc cfg (N.of_nat j) channels bps b (length b / N.to_nat channels)) ->
+    parse_stream bytes = Some s.
+Proof. exact encoded_stream_parses_back. Qed.
+Print Assumptions C15_encoded_stream.
